@@ -270,6 +270,32 @@ func judgeMapStyle(res uint16, evs []tev, style int) {
 			}
 		})
 	})
+	// the iteration restricted to the track that holds no tempo event: its
+	// events keep the times the tempo map gives them
+	if style <= 2 {
+		tr3 := smf.ReadTracksFrom(bytes.NewReader(data), 1)
+		n3 := 0
+		c3 := engine.Catch(func() {
+			tr3.Do(func(te smf.TrackEvent) {
+				ctx.Eval()
+				n3++
+				ex, segs := exact(res, evs, te.AbsTicks)
+				if ex.Cmp(big.NewRat(horizonUS, 1)) > 0 {
+					return
+				}
+				diff := new(big.Rat).Sub(new(big.Rat).SetInt64(te.AbsMicroSeconds), ex)
+				diff.Abs(diff)
+				if diff.Cmp(big.NewRat(int64(segs), 1)) > 0 {
+					report("do:track-selection:abs-microseconds:"+feature(evs), res, evs, te.AbsTicks, fmt.Sprintf("with only track 1 selected: event at tick %d gets %d us", te.AbsTicks, te.AbsMicroSeconds))
+				}
+			})
+		})
+		if c3.Panicked {
+			report(c3.Sig+":Do-selection", res, evs, -1, "ReadTracksFrom(rd, 1).Do panicked: "+c3.Value)
+		} else if n3 == 0 {
+			report("do:track-selection:no-events", res, evs, -1, "with only track 1 selected no event is handed out")
+		}
+	}
 	if c.Panicked {
 		report(c.Sig+":Do-only", res, evs, -1, "TracksReader.Only(...).Do panicked: "+c.Value)
 	} else if fmt.Sprint(gotTicks) != fmt.Sprint(wantTicks) {
